@@ -510,7 +510,13 @@ class Encoder(object):
                 items = sorted(m.func_names.items()) if isinstance(m.func_names, dict) else list(m.func_names)
                 subs.append((1, self.vec([self.u(i) + self.name(n) for i, n in items])))
             subs.sort(key=lambda x: x[0])
-            out.append(self.custom(b'name', b''.join(bytes([sid]) + self.u(len(pl)) + pl for sid, pl in subs)))
+            nsec = self.custom(b'name', b''.join(bytes([sid]) + self.u(len(pl)) + pl for sid, pl in subs))
+            pos = getattr(m, 'name_section_pos', None)
+            if pos is None:
+                out.append(nsec)
+            else:
+                # a name section is a custom section: it may stand anywhere (toolchains put it last; a reader must cope with any place)
+                out.insert(1 + pos % len(out), nsec)
         return b''.join(out)
 
 
